@@ -89,6 +89,9 @@ class Engine:
         self.methods = dict(methods or {})     # (cls, name) -> Fn-like callable(eng, st, recv, args, kwargs)
         self.attrs = dict(attrs or {})         # (cls, name) -> callable(eng, st, recv) -> [(v, st)]   (properties)
         self.closed_classes = set()            # classes whose attribute model is complete (missing -> AttributeError)
+        # for objects of external libraries the model is complete only for the names listed here (e.g. `filename` of a PIL image that
+        # was not opened from a file); any other unknown name is outside the model (-> undecided), never an AttributeError
+        self.closed_only = {}
         self.exc_parents = dict(BUILTIN_EXC)
         self.exc_parents.update(exc_parents or {})
         self.obligations = []
@@ -120,6 +123,8 @@ class Engine:
         if goal is False:
             goal = z3.BoolVal(False)
         props = [prop or self.prop]
+        if st.ghost.get("@over_approx"):
+            meta = dict(meta, over_approx=",".join(st.ghost["@over_approx"]))
         if meta.get("kind") == "invariant" and prop is None and self.inv_props:
             props = list(self.inv_props)       # an invariant that carries clauses of several properties is checked under each
         for pr in props:
@@ -384,7 +389,7 @@ class Engine:
                     else:
                         self.raise_(ExcVal("AttributeError", (name,)), s2)
                 return out
-            if v.cls in self.closed_classes:
+            if v.cls in self.closed_classes and (v.cls not in self.closed_only or name in self.closed_only[v.cls]):
                 self.raise_(ExcVal("AttributeError", (name,)), s)
                 return []
             if isinstance(h, list) or (v.cls == "dict" and "@items" in h):
@@ -831,6 +836,11 @@ class Engine:
                 if isinstance(v, Ref) and s is not None and isinstance(s.H(v), dict) and "cid" in s.H(v):
                     return s.H(v)["cid"]
                 return None
+            # a record that stands for "a value or None" (validity flag): `x is None` is the negation of the flag
+            for x, y in ((a, b), (b, a)):
+                if y is None and isinstance(x, Rec) and not isinstance(x.valid, bool):
+                    r = Not(x.valid)
+                    return Not(r) if isinstance(op, ast.IsNot) else r
             ia, ib = ident(a), ident(b)
             if isinstance(a, Rec) and isinstance(b, Rec) and a.name == b.name and a is not b and ("oid" in a.f or "oid" in b.f):
                 # records that stand for objects carry their identity in `oid` (their value is a function of it)
@@ -1146,7 +1156,7 @@ class Engine:
                 return self.list_method(recv, name, args, s)
             if recv.cls == "dict" and "@items" in h:
                 return self.dict_method(recv, name, args, s)
-            if recv.cls in self.closed_classes:
+            if recv.cls in self.closed_classes and (recv.cls not in self.closed_only or name in self.closed_only[recv.cls]):
                 self.raise_(ExcVal("AttributeError", (name,)), s)
                 return []
             raise Unsupported(f"method {recv.cls}.{name}")
